@@ -624,6 +624,54 @@ func isDotStarThenLiteral(re *syntax.Regexp) bool {
 	return lit.Op == syntax.OpLiteral && lit.Flags&syntax.FoldCase == 0
 }
 
+// isDotStarThenLiteralSet reports whether the pattern is exactly a greedy `.*`
+// (without the s flag) followed by case-sensitive literals and one alternation
+// of case-sensitive literals none of which is a prefix of another, e.g.
+// `.*\.(txt|log|md)`: the shape for which the suffix-set searcher's
+// matchStartZero shortcut (line start .. last suffix on the line) is exact.
+func isDotStarThenLiteralSet(re *syntax.Regexp) bool {
+	if !hasDotStarPrefix(re) {
+		return false
+	}
+	for re.Op == syntax.OpCapture && len(re.Sub) > 0 {
+		re = re.Sub[0]
+	}
+	first := re.Sub[0]
+	for first.Op == syntax.OpCapture && len(first.Sub) > 0 {
+		first = first.Sub[0]
+	}
+	if first.Flags&syntax.NonGreedy != 0 || first.Sub[0].Op != syntax.OpAnyCharNotNL {
+		return false
+	}
+	plain := func(r *syntax.Regexp) bool {
+		return r.Op == syntax.OpLiteral && r.Flags&syntax.FoldCase == 0
+	}
+	sawAlt := false
+	for i, sub := range re.Sub[1:] {
+		for sub.Op == syntax.OpCapture && len(sub.Sub) > 0 {
+			sub = sub.Sub[0]
+		}
+		switch {
+		case plain(sub) && !sawAlt:
+		case sub.Op == syntax.OpAlternate && !sawAlt && i == len(re.Sub)-2:
+			sawAlt = true
+			for a, x := range sub.Sub {
+				if !plain(x) {
+					return false
+				}
+				for b, y := range sub.Sub {
+					if a != b && len(x.Rune) <= len(y.Rune) && string(y.Rune[:len(x.Rune)]) == string(x.Rune) {
+						return false
+					}
+				}
+			}
+		default:
+			return false
+		}
+	}
+	return sawAlt
+}
+
 // isWildcardSubexpression checks if a subexpression acts as a "wildcard" that can
 // consume variable-length input. Used by isSafeForReverseSuffix to identify patterns
 // suitable for reverse suffix search.
